@@ -575,7 +575,25 @@ func buildC16(rs *lexgen.RuleSet) (*c16Defs, string, outcome) {
 	var def *lexer.StatefulDefinition
 	var nerr error
 	rej := ""
-	if p := guard(func() { def, nerr = lexer.New(userRules) }); p != "" {
+	// a rule set with one state and no actions is what lexer.NewSimple takes: the definition is then built that way
+	// (its JSON and Rules() still go back in through lexer.New)
+	var simple []lexer.SimpleRule
+	if len(rs.States) == 1 && rs.States[0].Name == "Root" {
+		for _, ru := range rs.States[0].Rules {
+			if ru.Action != "" {
+				simple = nil
+				break
+			}
+			simple = append(simple, lexer.SimpleRule{Name: ru.Name, Pattern: ru.Pattern})
+		}
+	}
+	if p := guard(func() {
+		if simple != nil {
+			def, nerr = lexer.NewSimple(simple)
+			return
+		}
+		def, nerr = lexer.New(userRules)
+	}); p != "" {
 		rej = "constructor panicked: " + p
 	} else if nerr != nil {
 		rej = nerr.Error()
@@ -744,9 +762,26 @@ func TestC16(t *testing.T) {
 			return
 		}
 		g := lexgen.GenRuleSet(t, lexgen.RuleOpts{AllowUnderflow: false})
-		d, rej, o := buildC16(g.RS)
+		rs := g.RS
+		if rapid.IntRange(0, 7).Draw(t, "simple") == 0 {
+			// what NewSimple takes: the plain rules of the root state, one of them listed twice
+			st := lexgen.StateSpec{Name: "Root"}
+			for _, ru := range g.RS.States[0].Rules {
+				if ru.Action == "" {
+					st.Rules = append(st.Rules, ru)
+				}
+			}
+			if len(st.Rules) > 0 {
+				dup := st.Rules[rapid.IntRange(0, len(st.Rules)-1).Draw(t, "dup")]
+				at := rapid.IntRange(0, len(st.Rules)).Draw(t, "dupat")
+				st.Rules = append(st.Rules[:at:at], append([]lexgen.RuleSpec{dup}, st.Rules[at:]...)...)
+				rs = &lexgen.RuleSet{States: []lexgen.StateSpec{st}}
+				r.Count("definitions_built_with_NewSimple")
+			}
+		}
+		d, rej, o := buildC16(rs)
 		if o.failed() {
-			report(t, r, o, newLexCase(g.RS, ""))
+			report(t, r, o, newLexCase(rs, ""))
 			return
 		}
 		if rej != "" {
@@ -755,7 +790,7 @@ func TestC16(t *testing.T) {
 		}
 		r.Count("definitions")
 		for i := 0; i < 6; i++ {
-			c := newLexCase(g.RS, g.GenInput(t))
+			c := newLexCase(rs, g.GenInput(t))
 			report(t, r, checkC16(c, d, r), c)
 		}
 	})
